@@ -7,7 +7,7 @@ use std::sync::Arc;
 use std::ops::Index;
 use std::slice::SliceIndex;
 verus! {
-broadcast use vstd::string::group_string_axioms, vstd::utf8::group_utf8_lib;
+broadcast use {vstd::string::group_string_axioms, vstd::utf8::group_utf8_lib};
 
 pub assume_specification<I: SliceIndex<str>>[<str as Index<I>>::index](s: &str, r: I) -> (out: &<I as SliceIndex<str>>::Output)
   ensures r.index_postcondition(s, out);
@@ -76,6 +76,11 @@ impl<T: Source> ReplaceSource<T> {
     let mut source_code = String::new();
     let mut inner_pos = 0;
     let ghost rs = rviews(replacements@);
+    proof {
+      assert(rs.skip(0) =~= rs);
+      assert(encode_utf8(source_code@) =~= Seq::<u8>::empty());
+      assert(Seq::<u8>::empty() + splice(ib, rs, 0) =~= splice(ib, rs, 0));
+    }
     for replacement in it: replacements.iter()
       invariant
         ib == cow_target(&inner_source_code).spec_bytes(), self.dom_ok(ib), rs == rviews(replacements@),
@@ -83,10 +88,29 @@ impl<T: Source> ReplaceSource<T> {
         inner_pos <= ib.len(), pos_ok(ib, inner_pos),
         encode_utf8(source_code@) + splice(ib, rs.skip(it.index@ as int), inner_pos as int) == splice(ib, rs, 0),
     {
+      let ghost i = it.index@ as int;
+      let ghost r = rs[i];
+      let ghost sc0 = encode_utf8(source_code@);
+      let ghost ch0 = source_code@;
+      let ghost pos0 = inner_pos as int;
+      proof {
+        assert(*replacement == replacements@[i]);
+        assert(r == rview(*replacement));
+        assert(self.replacements@.contains(**replacement));
+        assert(rs.skip(i)[0] == r);
+        assert(rs.skip(i).skip(1) =~= rs.skip(i + 1));
+      }
       if inner_pos < replacement.start {
         let end_pos = (replacement.start as usize).min(inner_source_code.len());
-        source_code.push_str(&inner_source_code[inner_pos as usize..end_pos]);
+        let piece = &inner_source_code[inner_pos as usize..end_pos];
+        source_code.push_str(piece);
+        proof {
+          assert(piece.spec_bytes() =~= ib.subrange(pos0, min2(r.start as int, ib.len() as int)));
+          encode_utf8_concat(ch0, piece@);
+        }
       }
+      let ghost sc1 = encode_utf8(source_code@);
+      proof { assert(sc1 =~= sc0 + (if pos0 < r.start { ib.subrange(pos0, min2(r.start as int, ib.len() as int)) } else { Seq::<u8>::empty() })); }
       source_code.push_str(&replacement.content);
       #[allow(clippy::manual_clamp)]
       {
@@ -95,9 +119,17 @@ impl<T: Source> ReplaceSource<T> {
           .min(inner_source_code.len() as u32);
       }
     }
+    let ghost chf = source_code@;
+    let tail = &inner_source_code[inner_pos as usize..inner_source_code.len()];
+    proof {
+      assert(rs.skip(rs.len() as int) =~= Seq::<RS>::empty());
+      assert(tail.spec_bytes() =~= ib.subrange(inner_pos as int, ib.len() as int));
+      encode_utf8_concat(chf, tail@);
+    }
     source_code.push_str(
       &inner_source_code[inner_pos as usize..inner_source_code.len()],
     );
+    assert(encode_utf8(source_code@) =~= splice(ib, rs, 0));
 
     source_code.into()
   }
